@@ -103,7 +103,7 @@ def build_dir(rng, root: Path):
     return owners
 
 
-PUNCT = [("", ""), ("", ""), ("(", ")"), ("", ","), ("", "."), ("", "?"), ("", "!"), ("", ";"), ("", ":"), ("(", "),"), ("", ").")]
+PUNCT = [("", ""), ("", ""), ("(", ")"), ("", ","), ("", "."), ("", "?"), ("", "!"), ("", ";"), ("", ":"), ("(", "),"), ("", ")."), (",", ""), (";", ""), (":", ""), ("", "("), ("?(", ").("), (".", "."), ("!", "?"), (")", "(")]  # also punctuation on the "unusual" side
 FILLERS = ["foo", "see", "and", "P5", "o", "x", "240101", "1015", "~", "word.", "(aside)", "k::v", "#tag", "@ctx", "https://example.com"]
 
 
